@@ -243,6 +243,98 @@ pub fn run(tier: Tier) -> i32 {
         }
     }
 
+    // ---------------------------------------------------------------- scope 2b: inherited properties after a dictionary reset
+    // liblzma refuses an LZMA chunk without properties after a dictionary reset; lzma-rs accepts it and continues with the
+    // properties and probabilities it has. If it does accept, positions (pos_state, literal position bits) count from the
+    // dictionary reset - the only reading under which the accepted stream has a defined content. The chunks before and
+    // after the reset are position-polarised (the symbol at position p is a function of p mod 2^max(lp,pb)), so a decoder
+    // whose position does not restart meets trained contexts at the wrong phase. Oracle: Err, or exactly the model output.
+    {
+        let name = "lenient/props-inherited-after-dict-reset";
+        if ctx.may_start(name) {
+            let t0 = Instant::now();
+            let polar = |start: usize, n: usize, period: usize, salt: u32| -> Vec<Sym> {
+                (start..start + n)
+                    .map(|p| {
+                        let ph = (p % period) as u32;
+                        if ph as usize == period - 1 && p > 0 {
+                            Sym::S
+                        } else {
+                            Sym::L((ph.wrapping_add(salt).wrapping_mul(2654435761) >> 11) as u8 | if ph % 2 == 0 { 0x80 } else { 0 })
+                        }
+                    })
+                    .collect()
+            };
+            let mut cases: Vec<(String, Vec<Chunk>)> = Vec::new();
+            for props in [(0u32, 2u32, 2u32), (1, 1, 1), (0, 0, 2), (0, 3, 0), (2, 2, 4), (0, 0, 4), (0, 4, 0), (3, 0, 2)] {
+                let period = 1usize << props.1.max(props.2);
+                for na in [5 * period + 1, 5 * period + 2, 6 * period - 1, 6 * period] {
+                    for u in 1..=period.min(5) {
+                        for class in [0u8, 1] {
+                            for first_u in [false, true] {
+                                let mut cs = Vec::new();
+                                if first_u {
+                                    cs.push(Chunk::U { reset: true, data: vec![0x11; 3] });
+                                    cs.push(Chunk::C { class: 2, props, prog: polar(3, na, period, 7) });
+                                } else {
+                                    cs.push(Chunk::C { class: 3, props, prog: polar(0, na, period, 7) });
+                                }
+                                cs.push(Chunk::U { reset: true, data: (0..u).map(|i| 0x20 + i as u8).collect() });
+                                cs.push(Chunk::C { class, props: (0, 0, 0), prog: polar(u, 3 * period + 2, period, 7) });
+                                cs.push(Chunk::C { class: 0, props: (0, 0, 0), prog: polar(u + 3 * period + 2, period + 1, period, 7) });
+                                cases.push((format!("props {:?}, {}{} bytes, dictionary reset by a {}-byte uncompressed chunk, class-{} chunk without properties", props, if first_u { "3 stored + " } else { "" }, na, u, class), cs));
+                            }
+                        }
+                    }
+                }
+            }
+            let n = cases.len() as u64;
+            let accepted: Vec<std::sync::atomic::AtomicBool> = (0..n).map(|_| std::sync::atomic::AtomicBool::new(false)).collect();
+            par_for(n, |i| {
+                let (what, cs) = &cases[i as usize];
+                let w = lzma2::write(cs);
+                assert!(!w.ills.is_empty() && w.ills.iter().all(|s| s.contains("properties needed after dictionary reset")), "{:?}", w.ills);
+                ctx.eval(1);
+                ctx.nontriv(1);
+                ctx.states.fetch_add(cs.len() as u64, Ordering::Relaxed);
+                ctx.transitions.fetch_add(cs.len() as u64, Ordering::Relaxed);
+                if i % 97 == 0 {
+                    ctx.sample(json!({"scope": name, "chunks": chunks_str(cs), "expect": brief_bytes(&w.expect)}));
+                }
+                let (v, out, consumed) = dec_plain(Fmt::Lzma2, &Opts::default(), &w.bytes);
+                ctx.traces.fetch_add(1, Ordering::Relaxed);
+                if v.is_ok() {
+                    accepted[i as usize].store(true, Ordering::Relaxed);
+                }
+                if v.is_panic() || (v.is_ok() && !(out == w.expect && consumed == w.bytes.len())) {
+                    let case = Case::Dec { fmt: Fmt::Lzma2, opts: Opts::default(), input: Hex(w.bytes.clone()), rd: Rd::default(), sk: Sk::default() };
+                    ctx.violation(&case, &format!("{}: refused, or decoded with positions counted from the dictionary reset: output == {} ({} bytes)", what, brief_bytes(&w.expect), w.expect.len()), &obs_of(v, out, consumed), None);
+                    return;
+                }
+                let mut h = RawH::new_lzma2();
+                let r = h.apply(&RawOp::Dec(Hex(w.bytes.clone())));
+                ctx.traces.fetch_add(1, Ordering::Relaxed);
+                if r.v.is_panic() || (r.v.is_ok() && r.out != w.expect) || r.v.is_ok() != v.is_ok() {
+                    let case = Case::RawLzma2 { ops: vec![RawOp::Dec(Hex(w.bytes.clone()))] };
+                    ctx.violation(&case, &format!("{}: raw Lzma2Decoder gives the verdict of lzma2_decompress ({}), on success output == {} ({} bytes)", what, v.class(), brief_bytes(&w.expect), w.expect.len()), &obs_of(r.v, r.out, r.consumed), None);
+                }
+            });
+            // a refusal on principle (liblzma's rule) does not look at the data: the family is refused as a whole or decoded
+            // as a whole. Members differ only in how many bytes precede the reset and in the symbols, never in the framing.
+            let n_acc = accepted.iter().filter(|a| a.load(Ordering::Relaxed)).count();
+            if n_acc != 0 && n_acc != cases.len() {
+                let first_acc = accepted.iter().position(|a| a.load(Ordering::Relaxed)).unwrap();
+                let first_ref = accepted.iter().position(|a| !a.load(Ordering::Relaxed)).unwrap();
+                let (what, cs) = &cases[first_ref];
+                let w = lzma2::write(cs);
+                let (v, out, consumed) = dec_plain(Fmt::Lzma2, &Opts::default(), &w.bytes);
+                let case = Case::Dec { fmt: Fmt::Lzma2, opts: Opts::default(), input: Hex(w.bytes.clone()), rd: Rd::default(), sk: Sk::default() };
+                ctx.violation(&case, &format!("{}: this decoder accepts the same framing in {} of {} family members (e.g. [{}]), so the chunk sequence is legal for it and must decode to {} ({} bytes); a refusal of the framing cannot depend on the data", what, n_acc, cases.len(), cases[first_acc].0, brief_bytes(&w.expect), w.expect.len()), &obs_of(v, out, consumed), None);
+            }
+            ctx.scope_done(name, n, t0, "position-polarised chunks around a mid-stream dictionary reset; the LZMA chunk after it carries no properties (accepted by lzma-rs only)");
+        }
+    }
+
     // ---------------------------------------------------------------- scope 3: size extremes
     {
         let name = "size-extremes";
